@@ -33,6 +33,10 @@ def main():
     if HERE not in sys.path:
         sys.path.insert(0, HERE)
     os.chdir(HERE)
+    # development only: point the checks at another checkout of the repository (a scratch
+    # worktree holding a seeded defect).  The registered commands never set this.
+    if os.environ.get("VERIF_REPO"):
+        sys.path.insert(0, os.environ["VERIF_REPO"])
     import warnings
 
     warnings.filterwarnings("ignore")
